@@ -231,6 +231,10 @@ func (op *Operation) Closest() *k_nearest_nodes.Type {
 
 func (op *Operation) startQuery() {
 	a := op.popClosestUnqueried()
+	if _, ok := op.queried[addrString(a.Addr.String())]; ok {
+		// The same address can be queued under several IDs. Query it once.
+		return
+	}
 	op.markQueried(a.Addr)
 	op.outstanding++
 	go func() {
